@@ -91,8 +91,8 @@ class ArgSoup(Stream):
         self.oracles = {}
 
     def cases(self, rng, tier):
-        names = ["a", "b", "s.a", "c", "t.c", "s.t.c", "x", "s", ".a", "a.", ""]
-        vals = ["1", "x y", "'q'", '"', "1;b=2", "=", "{", "}", "\\", "#", "$x", "None", "*y", "a=b", "\n", "!"]
+        names = ["a", "b", "s.a", "c", "t.c", "s.t.c", "x", "s", ".a", "a.", "", "a%", "%s", "x%d", "%(a)s", "a{0}"]
+        vals = ["1", "x y", "'q'", '"', "1;b=2", "=", "{", "}", "\\", "#", "$x", "None", "*y", "a=b", "\n", "!", "%", "%s", "50%", "%(x)s", "{}"]
         for i in range(1500 if tier == "quick" else 40000):
             if i % 3 == 0:
                 yield pc.gen_soup(rng)
